@@ -160,7 +160,15 @@ def handle (j : Json) : R Json := do
     let cds ← listOf (fun c => do return ((← asStr (← idx c 0)), (← asInt (← idx c 1)), (← asInt (← idx c 2)))) (← fld rj "cds")
     let r : RecInfo := ⟨← strF rj "id", (strF rj "original_id").toOption, ← intF rj "length", ← boolF rj "circular", cds⟩
     let optsOf (o : Json) : R SideOpts := do
-      let (subs, protos) ← match o.getObjVal? "file" with
+      let (subs, protos) ← match o.getObjVal? "raw_files" with
+        | .ok rf => do
+          -- the annotation files themselves: parsed by the model (`SideOpts.loadFiles`)
+          let files ← (← asArr rf).mapM wireToJ
+          match SideOpts.loadFiles r files with
+          | .reuse p => pure p
+          | _ => throw "C11: annotation files do not load"
+        | .error _ =>
+        match o.getObjVal? "file" with
         | .ok fj => do
           let fjj ← wireToJ fj
           match Sideloaded.fromJson { r.ctx with recordId := (Spec.strField fjj "record_id").getD r.id } fjj with
@@ -209,7 +217,12 @@ def handle (j : Json) : R Json := do
     let runInfo ← match j.getObjVal? "pfam" with
       | .ok pj => do
         let m := if (strF pj "module").toOption.getD "full_hmmer" == "cluster_hmmer" then HmmerModule.cluster else HmmerModule.full
-        let o : PfamOpts := ⟨← strF pj "full", ← strF pj "cluster", ← strF pj "latest"⟩
+        -- "latest" is resolved by the model from the installed version directories
+        let installed ← listOf asStr (fldD pj "installed" (jArr []))
+        let latest := match latestVersion installed with
+          | .reuse v => v
+          | _ => (strF pj "latest").toOption.getD ""
+        let o : PfamOpts := ⟨← strF pj "full", ← strF pj "cluster", latest⟩
         let results : Option (Option HmmerRes) := match out with
           | .reuse y => some (some y)
           | .discard => some none
@@ -226,7 +239,7 @@ def handle (j : Json) : R Json := do
                          | .reuse v => Spec.pfamKeepAllowed m o v
                          | _ => false)
             | none => false
-          pure [("run", Json.str run), ("keep_allowed", toJson allowed)]
+          pure [("run", Json.str run), ("keep_allowed", toJson allowed), ("latest", Json.str latest)]
       | .error _ => pure []
     return reply input out HmmerRes.toJson (HmmerRes.valid ctx)
       (runInfo ++ [("may_reuse", toJson (Spec.hmmerMayReuse ctx maxE minS input)), ("reference", reference),
